@@ -17,9 +17,10 @@ pub(crate) struct FRecData {
     pub mode: u8,
     pub ret: u64,
     pub errno: i32,
+    pub fd_open_at_call: bool,
     pub marker: u64,
 }
-pub(crate) static mut FR: FRecData = FRecData { calls: 0, op: 0, a: [0; 5], fd: -1, mode: 0, ret: 0, errno: 0, marker: 0x0f0e_0d0c_0b0a_0908 };
+pub(crate) static mut FR: FRecData = FRecData { calls: 0, op: 0, a: [0; 5], fd: -1, fd_open_at_call: false, mode: 0, ret: 0, errno: 0, marker: 0x0f0e_0d0c_0b0a_0908 };
 #[allow(static_mut_refs)]
 fn fr() -> &'static mut FRecData {
     // SAFETY: single-threaded harness
@@ -40,6 +41,12 @@ impl FRec {
         fr().a[0] = spec::rd64(b, 0);
         fr().a[1] = spec::rd64(b, 8);
     }
+    /// records the descriptor the handler is given and whether it is (still) open while the handler runs
+    fn fd(&mut self, fd: RawFd) {
+        fr().fd = fd;
+        // SAFETY: reading ghost state
+        fr().fd_open_at_call = unsafe { fd >= g::FD_BASE && fd < g::FD_BASE + 2 && g::G.fd_state[(fd - g::FD_BASE) as usize] == g::FD_OPEN };
+    }
     fn mmap(&mut self, m: &VhostUserMMap) {
         let (a, b, c, d) = (m.fd_offset, m.shm_offset, m.len, m.flags);
         fr().a = [m.shmid as u64, a, b, c, d];
@@ -49,8 +56,8 @@ impl VhostUserFrontendReqHandlerMut for FRec {
     fn handle_config_change(&mut self) -> HandlerResult<u64> { self.out(be::CONFIG_CHANGE_MSG) }
     fn shared_object_add(&mut self, uuid: &VhostUserSharedMsg) -> HandlerResult<u64> { self.uuid(uuid); self.out(be::SHARED_OBJECT_ADD) }
     fn shared_object_remove(&mut self, uuid: &VhostUserSharedMsg) -> HandlerResult<u64> { self.uuid(uuid); self.out(be::SHARED_OBJECT_REMOVE) }
-    fn shared_object_lookup(&mut self, uuid: &VhostUserSharedMsg, fd: &dyn AsRawFd) -> HandlerResult<u64> { self.uuid(uuid); fr().fd = fd.as_raw_fd(); self.out(be::SHARED_OBJECT_LOOKUP) }
-    fn shmem_map(&mut self, req: &VhostUserMMap, fd: &dyn AsRawFd) -> HandlerResult<u64> { self.mmap(req); fr().fd = fd.as_raw_fd(); self.out(be::SHMEM_MAP) }
+    fn shared_object_lookup(&mut self, uuid: &VhostUserSharedMsg, fd: &dyn AsRawFd) -> HandlerResult<u64> { self.uuid(uuid); self.fd(fd.as_raw_fd()); self.out(be::SHARED_OBJECT_LOOKUP) }
+    fn shmem_map(&mut self, req: &VhostUserMMap, fd: &dyn AsRawFd) -> HandlerResult<u64> { self.mmap(req); self.fd(fd.as_raw_fd()); self.out(be::SHMEM_MAP) }
     fn shmem_unmap(&mut self, req: &VhostUserMMap) -> HandlerResult<u64> { self.mmap(req); self.out(be::SHMEM_UNMAP) }
 }
 
@@ -140,6 +147,9 @@ fn e_freq(code: u32, flags: u32, size_delta: i32) {
             _ => (-(22i64)) as u64, // -EINVAL
         };
         if r.calls == 1 {
+            if code == be::SHARED_OBJECT_LOOKUP || code == be::SHMEM_MAP {
+                assert!(r.fd == g::FD_BASE && r.fd_open_at_call, "C18: the handler is given the received descriptor, open for the duration of the call");
+            }
             if reply_ack && need_reply {
                 assert!(g::G.tx_calls == 1 && g::G.tx_len == 20, "C18: exactly one acknowledgement");
                 assert!(g::tx32(0) == code && g::tx32(4) == (spec::F_VERSION_1 | spec::F_REPLY) && g::tx32(8) == 8, "C01: ack header");
